@@ -13,6 +13,8 @@ def check(model, R, tier):
     E.check_release_predicate(model, R, 'C04', B)
     E.check_consume_release(model, R, 'C04', B)
     E.check_reset(model, R, 'C04')
+    from sa.rules_modtree import check_optimizer_ctor
+    check_optimizer_ctor(model, R, 'C04')       # an optimizer that drops members of its parameter list no longer resets them in zero_grad
     return dict(
         explanation='Histories share only the per-tensor gradient buffer; the check decides the buffer discipline on every path of Tensor.backward, zero_, the grad setter and both '
                     'zero_grad methods: who may write a buffer (package-wide), truth tables of the zero-initialisation guard (leaf: create iff absent; non-leaf: always reset), of the root '
